@@ -21,6 +21,7 @@ func init() {
 		// the parent context ends before Close (pre bit 1)
 		quick = append(quick, &Job{Pkg: "", Func: "ZZ_C11_AfterClose", Args: []int64{(entry % 2) * 2, entry % 2, entry, entry % 3, 2 + entry%2}, Bounds: b + "; the channel's parent context is cancelled before Close"})
 		thorough = append(thorough, &Job{Pkg: "", Func: "ZZ_C11_AfterClose", Args: []int64{((entry + 1) % 2) * 2, 1, entry, (entry + 1) % 3, 3 - entry%2}, Bounds: b + "; the channel's parent context is cancelled before Close"})
+		quick = append(quick, &Job{Pkg: "", Func: "ZZ_C11_TwoClosers", Args: []int64{(entry % 3), entry % 2, entry}, Bounds: "two concurrent Close calls (the loser returns while the winner is still inside Close, transport calls are scheduling points) and a write that begins after either has returned"})
 		// Race: (q, until, entry, closeArg)
 		quick = append(quick, &Job{Pkg: "", Func: "ZZ_C11_Race", Args: []int64{1, entry % 2, entry, entry % 3}, Bounds: b})
 		thorough = append(thorough, &Job{Pkg: "", Func: "ZZ_C11_Race", Args: []int64{0, 0, entry, (entry + 1) % 3}, Bounds: b})
@@ -31,7 +32,7 @@ func init() {
 	}
 	Specs["C11"] = &Spec{
 		Jobs: jobsBy(quick, thorough), Labels: labelFilter("c11-"),
-		MustReach: []string{"c11-after-close-done", "c11-race-done", "c11-race-write-began-after-close", "c11-readfrom-race-done", "c11-chunk-began-after-close"},
+		MustReach: []string{"c11-after-close-done", "c11-race-done", "c11-race-write-began-after-close", "c11-readfrom-race-done", "c11-chunk-began-after-close", "c11-write-began-after-a-close-returned"},
 		Bounds: map[string]string{
 			"quick":    "all 7 entry points with Close(nil) and one other Close argument each, synchronous and queue-2 channels, with or without a payload sent before the Close; a write racing with Close on a queue-1 channel for every entry point (the assertion applies when Close had returned before the call began)",
 			"thorough": "all 7 x 3 x {sync, queue 1, queue 2} combinations; races on sync and queue-2 channels",
